@@ -151,7 +151,7 @@ Definition RD (d : dstore) (sp : spec) : Prop := forall g, abs_disjoint d g = sg
 Lemma sget_sput sp g X g' : sget (sput sp g X) g' = if N.eqb g' g then X else sget sp g'.
 Proof. unfold sget, sput. rewrite aget_aset. now destruct (N.eqb g' g). Qed.
 
-Lemma refine_frame_scope o : refine_scope o = true -> frame_scope o = true.
+Lemma refine_frame_scope o : refine_scope0 o = true -> frame_scope o = true.
 Proof.
   destruct o; cbn; try reflexivity; try discriminate.
   - destruct ps as [u|]; [|reflexivity]. unfold writes_identity. intro H. apply negb_true_iff in H.
@@ -184,7 +184,7 @@ Proof.
 Qed.
 
 Theorem shared_step_refines s sp o :
-  SInv s -> EClosed (sg s) -> refine_scope o = true -> RS s sp ->
+  SInv s -> EClosed (sg s) -> refine_scope0 o = true -> RS s sp ->
   RS (fst (sstep s o)) (fst (spec_step sp o)) /\ snd (sstep s o) = snd (spec_step sp o).
 Proof.
   intros HI Hcl Hsc HR. pose proof HI as [Hnd Hlt].
@@ -273,7 +273,7 @@ Proof.
 Qed.
 
 (* ---------- invariants along refine-scope histories, shared store ---------- *)
-Lemma closed_step_shared s o : SInv s -> refine_scope o = true -> EClosed (sg s) -> EClosed (sg (fst (sstep s o))).
+Lemma closed_step_shared s o : SInv s -> refine_scope0 o = true -> EClosed (sg s) -> EClosed (sg (fst (sstep s o))).
 Proof.
   intros HI Hsc H. pose proof HI as [Hnd Hlt].
   destruct (closed_pg_ops (sg s) (target o) Hnd H) as [C1 [C2 [C3 [C4 [C5 [C6 C7]]]]]].
@@ -291,11 +291,11 @@ Lemma RS_init : RS init_store [].
 Proof. intro g. reflexivity. Qed.
 
 Theorem shared_refines_run ops : forall s sp,
-  SInv s -> EClosed (sg s) -> RS s sp -> (forall o, In o ops -> refine_scope o = true) ->
+  SInv s -> EClosed (sg s) -> RS s sp -> (forall o, In o ops -> refine_scope0 o = true) ->
   sresults s ops = spec_results sp ops /\ RS (srun ops s) (spec_run ops sp).
 Proof.
   induction ops as [|o r IH]; intros s sp HI Hcl HR Hsc; cbn [sresults spec_results srun spec_run fold_left]; [auto|].
-  assert (Ho : refine_scope o = true) by (apply Hsc; now left).
+  assert (Ho : refine_scope0 o = true) by (apply Hsc; now left).
   destruct (shared_step_refines s sp o HI Hcl Ho HR) as [HR' Hres].
   destruct (IH (fst (sstep s o)) (fst (spec_step sp o))) as [A B]; auto.
   - now apply SInv_step.
@@ -305,7 +305,7 @@ Proof.
 Qed.
 
 Theorem shared_refines_spec ops :
-  (forall o, In o ops -> refine_scope o = true) ->
+  (forall o, In o ops -> refine_scope0 o = true) ->
   sresults init_store ops = spec_results [] ops /\
   forall g, abs_shared (srun ops init_store) g = sget (spec_run ops []) g.
 Proof.
@@ -331,7 +331,7 @@ Proof.
 Qed.
 
 Theorem disjoint_step_refines d sp o :
-  DInv d -> DClosed d -> DHome d -> refine_scope o = true ->
+  DInv d -> DClosed d -> DHome d -> refine_scope0 o = true ->
   RD d sp ->
   RD (fst (dstep d o)) (fst (spec_step sp o)) /\ snd (dstep d o) = snd (spec_step sp o).
 Proof.
@@ -411,7 +411,7 @@ Proof.
     symmetry. exact (matching_result_snd mine (gn (dget d g2))).
 Qed.
 
-Lemma refine_nid_scope o : refine_scope o = true -> nid_scope o = true.
+Lemma refine_nid_scope o : refine_scope0 o = true -> nid_scope o = true.
 Proof.
   destruct o; cbn; try reflexivity; try discriminate.
   - destruct ps as [u|]; [apply scope_ident_free | reflexivity].
@@ -423,7 +423,7 @@ Qed.
 Lemma DClosed_put d g G : DClosed d -> EClosed G -> DClosed (dput d g G).
 Proof. intros H HG g'. rewrite dget_dput. destruct (N.eqb g' g); [exact HG | apply H]. Qed.
 
-Lemma closed_step_disjoint d o : DInv d -> refine_scope o = true -> DClosed d -> DClosed (fst (dstep d o)).
+Lemma closed_step_disjoint d o : DInv d -> refine_scope0 o = true -> DClosed d -> DClosed (fst (dstep d o)).
 Proof.
   intros HI Hsc H.
   assert (Hnd : forall g, NoDup (ids (dget d g))) by (intro g; apply (HI g)).
@@ -437,23 +437,23 @@ Proof.
 Qed.
 
 Theorem disjoint_refines_run ops : forall d sp,
-  DInv d -> DClosed d -> DHome d -> RD d sp -> (forall o, In o ops -> refine_scope o = true) ->
+  DInv d -> DClosed d -> DHome d -> RD d sp -> (forall o, In o ops -> refine_scope0 o = true) ->
   dresults d ops = spec_results sp ops /\ RD (drun ops d) (spec_run ops sp).
 Proof.
   induction ops as [|o r IH]; intros d sp HI Hcl Hh HR Hsc;
     cbn [dresults spec_results drun spec_run fold_left] in *; [auto|].
-  assert (Ho : refine_scope o = true) by (apply Hsc; now left).
+  assert (Ho : refine_scope0 o = true) by (apply Hsc; now left).
   destruct (disjoint_step_refines d sp o HI Hcl Hh Ho HR) as [HR' Hres].
   destruct (IH (fst (dstep d o)) (fst (spec_step sp o))) as [A B]; auto.
   - now apply DInv_step.
   - now apply closed_step_disjoint.
-  - apply DHome_step; auto. now apply refine_nid_scope.
+  - apply DHome_step; auto. apply nid_home_scope. now apply refine_nid_scope.
   - intros; apply Hsc; now right.
   - split; [now rewrite Hres, A | exact B].
 Qed.
 
 Theorem disjoint_refines_spec ops :
-  (forall o, In o ops -> refine_scope o = true) ->
+  (forall o, In o ops -> refine_scope0 o = true) ->
   dresults init_dstore ops = spec_results [] ops /\
   forall g, abs_disjoint (drun ops init_dstore) g = sget (spec_run ops []) g.
 Proof.
@@ -465,7 +465,7 @@ Proof.
 Qed.
 
 Theorem backends_agree ops :
-  (forall o, In o ops -> refine_scope o = true) ->
+  (forall o, In o ops -> refine_scope0 o = true) ->
   sresults init_store ops = dresults init_dstore ops /\
   forall g, abs_shared (srun ops init_store) g = abs_disjoint (drun ops init_dstore) g.
 Proof.
